@@ -7,11 +7,13 @@ RULES = [
     ("AbstractPathModelDAG", r"_encode_paths", r"add_variables:self\.edge_vars|add_constraint:.*10[ac]", ["C01"]),
     ("AbstractPathModelDAG", r"_encode_paths", r"subpaths_vars|7[ab]_", ["C10", "C05"]),
     ("AbstractPathModelDAG", r"_encode_paths", r"position|path_length", ["C08"]),
-    ("AbstractPathModelDAG", r"_apply_safety", r".*", ["C05"]),
+    # (the fixings and prunings are rows of every model built on the base class: one that cuts off a route makes the true k infeasible or
+    #  the reported optimum too large in the minimising / error / cover models as well)
+    ("AbstractPathModelDAG", r"_apply_safety", r".*", ["C05", "C03", "C07", "C08", "C09"]),
     ("AbstractWalkModelDiGraph", r"_encode_walks", r".*", ["C01"]),
     ("AbstractWalkModelDiGraph", r"_encode_walks", r"add_variables:self\.edge_vars|22a", ["C04"]),
     ("AbstractWalkModelDiGraph", r"_encode_subset_constraints", r".*", ["C10", "C05", "C04"]),     # (C04: the minimum of MinFlowDecompCycles is taken over walks that satisfy them)
-    ("AbstractWalkModelDiGraph", r"_apply_safety", r".*", ["C05"]),
+    ("AbstractWalkModelDiGraph", r"_apply_safety", r".*", ["C05", "C04", "C07", "C08", "C09"]),
     ("kFlowDecomp", r".*", r".*", ["C02"]),
     ("kFlowDecompCycles", r".*", r".*", ["C02"]),
     ("kFlowDecomp", r"given_weights", r".*", ["C05"]),
